@@ -30,6 +30,9 @@ def run_family(gpkg, fam, seed, n):
     # the AVX kernels of the system's OpenBLAS read a few bytes past the end of their operands (harmless, but fatal next to a guard page):
     # the SSE2 kernel set does not
     env["OPENBLAS_CORETYPE"] = "Prescott"
+    # families whose code under test contains no external kernel (index arithmetic, sparse products) get no slack retry: one element past
+    # the end is already a violation there
+    env["VERIF_EXACT_GUARD"] = "1" if fam in ("index", "gemvbox", "base-large") else "0"
     outf = os.path.join(tlc.workdir("c19"), "%s_%d.json" % (fam, seed))
     if os.path.exists(outf):
         os.unlink(outf)
@@ -56,7 +59,7 @@ def run(tier, seed, replay=None):
     ck.clean_replays()
     quick = tier == "quick"
     scale = 1 if quick else 25
-    plan = {"blas": 40 * scale, "blas-large": 100 * scale, "lapack": 5 * scale, "lapack-large": 50 * scale, "base-large": 50 * scale,
+    plan = {"blas": 40 * scale, "blas-large": 300 * scale, "index": 400 * scale, "gemvbox": 120 * scale, "lapack-shapes": 80 * scale, "lapack": 5 * scale, "lapack-large": 50 * scale, "base-large": 50 * scale,
             "dense": 12 * scale, "sparse": 6 * scale, "import": 10 * scale, "shapes": 60 * scale, "misc": 24 * scale}
     ck.rule = ("guard build; per worker x 16: " + ", ".join("%s %d" % kv for kv in plan.items()) + " generated calls / programs; BLAS calls judged by TLC "
                "(accept/reject = footprint, arguments near 2^31 clamped in the model); distinct = distinct (family, routine / operation, outcome) classes")
